@@ -145,8 +145,21 @@ func VP_C15_Crash() {
 
 // VP_C16_Fault: when one fallible file-system call fails, the command reports failure or produces exactly the fault-free result.
 func VP_C16_Fault() {
-	ci := 1 + zzvp.Choose(zzvp.Param("scenarios", vpNumScenarios)-1)
+	ci := zzvp.Choose(zzvp.Param("scenarios", vpNumScenarios))
 	argv, _ := vpScenario(ci)
+	if argv[0] == "init" {
+		// a failing init reports the failure and does not block a later init
+		k := zzvp.Int("k", 1, zzvp.Param("maxops", 60))
+		zzvp.FaultAt(k)
+		r := zzvp.Run("init")
+		zzvp.NoFault()
+		zzvp.Assume(zzvp.Faulted())
+		zzvp.Assert(r.Exit == 1, "init reports an I/O failure")
+		again := zzvp.Run("init")
+		zzvp.Assert(again.Exit == 0 && zzvp.Run("status").Exit == 0, "after a failed init, init can be run again and yields a usable repository")
+		zzvp.Done()
+		return
+	}
 	before := vpReadRefs()
 	zzvp.Assume(vpFsck() == "")
 	// the fault-free twin from the same pre-state
